@@ -70,6 +70,7 @@ ESTIMATORS = {
     "Lin": recorder.Lin,
     "Cubic": recorder.Cubic,
     "LinTied": recorder.LinTied,
+    "LinInt": recorder.LinInt,
     "LinOffset": recorder.LinOffset,
     "LinTiny": recorder.LinTiny,
     "LinBoth": recorder.LinBoth,
